@@ -287,6 +287,19 @@ func Digest(alg string, b []byte) string {
 	}
 }
 
+// FallbackTag is the referrers fallback tag of a subject digest: "<alg>-<hex>" with the
+// algorithm cut to 32 and the hex part to 64 characters (OCI distribution spec).
+func FallbackTag(d string) string {
+	alg, hx, _ := strings.Cut(d, ":")
+	if len(alg) > 32 {
+		alg = alg[:32]
+	}
+	if len(hx) > 64 {
+		hx = hx[:64]
+	}
+	return alg + "-" + hx
+}
+
 // AlgOf returns the algorithm part of a digest string ("sha256" if malformed).
 func AlgOf(d string) string {
 	if i := strings.IndexByte(d, ':'); i > 0 {
